@@ -36,6 +36,11 @@ def groups(n, seed):
         pk = gen.random_params(rng, iteration_limit=60)
         gs.append({"tag": "C02.outside", "runs": [{"prob": ps, "params": pk, "x0_outside": float([0.5, 2.0, 7.0][i % 3]),
                                                    "obj_limit_at_start": [1.0, 0.0, 100.0][(i // 3) % 3]}]})
+    # input validation switched off and an objective that is NaN at some point: a NaN is not "at or below the limit"
+    for i in range(max(6, n // 15)):
+        pk = gen.random_params(rng, iteration_limit=30, validate_input=False)
+        ps = ("convex_qp", int(rng.integers(0, 2 ** 31)), int(rng.integers(2, 4)), int(rng.integers(0, 2)), {})
+        gs.append({"tag": "C02.nanobj", "runs": [{"prob": ps, "params": pk, "fault": ("transient", "obj", int(i % 6), "nan")}]})
     # a feasible problem whose only row is a genuine range of tiny relative width: no status but Optimal / a limit is justified
     for i in range(max(3, n // 30)):
         pk = gen.random_params(rng, iteration_limit=60)
